@@ -113,12 +113,12 @@ Definition LO := lower_with [].
 Definition UP := upper_with [].
 Definition PT := sk_parse_tree LO.
 
-Notation tl_get sch d := (treelist_get sktree LO UP PT sk_set_label sk_add_comments false false sch d).
-Notation tl_get_repaired sch d := (treelist_get sktree LO UP PT sk_set_label sk_add_comments true false sch d).
-Notation tr_get sch c k d := (tree_get sktree LO UP PT sk_set_label sk_add_comments false false false sch c k d).
-Notation tr_get_repaired sch c k d := (tree_get sktree LO UP PT sk_set_label sk_add_comments true true false sch c k d).
+Notation tl_get sch d := (treelist_get sktree LO UP PT sk_set_label sk_add_comments false false false sch d).
+Notation tl_get_repaired sch d := (treelist_get sktree LO UP PT sk_set_label sk_add_comments true false false sch d).
+Notation tr_get sch c k d := (tree_get sktree LO UP PT sk_set_label sk_add_comments false false false false sch c k d).
+Notation tr_get_repaired sch c k d := (tree_get sktree LO UP PT sk_set_label sk_add_comments true true false false sch c k d).
 Notation yff sch d := (yield_from_files sktree LO UP PT sk_set_label sk_add_comments false sch [] d).
-Notation ds_get sch a d := (dataset_get sktree LO UP PT sk_set_label sk_add_comments false sch a d).
+Notation ds_get sch a d := (dataset_get sktree LO UP PT sk_set_label sk_add_comments false false sch a d).
 
 Definition res_len {A B} (r : res (list A * B)) : option nat :=
   match r with Ok (l, _) => Some (length l) | _ => None end.
